@@ -131,6 +131,7 @@ def run(ctx):
                   "the proof of knowledge is not computed for (own identifier, own commitment, own nonce commitment): %s"
                   % ([fmt(p)[:50] for p in cc["parts"]] if cc else "no HDKG-based challenge"), cp.loc)
     pok_kernel(ctx)
+    culprits_accessor(ctx)
     p3 = ctx.anchor(DKG + "part3")
     if p3:
         v = FnView.get(P, p3)
